@@ -144,6 +144,9 @@ def values_corruptions():
     def pm_has(e):
         e["has"] = e["has"] + [[e["from"], e["to"][0], 6]]
 
+    def pm_dup(e):
+        e["seq"][0] = e["seq"][1]
+
     def offs(e):
         e["some"] = e["some"][1:]
 
@@ -168,6 +171,7 @@ def values_corruptions():
         ("two subsets swapped in subset iteration", "bb_subsets", lambda e: len(e["subs"]) > 3, bb_sub, "C18"),
         ("PieceMoves::len off by one", "pm", lambda e: e["k"] == "ok", pm_len, "C17"),
         ("PieceMoves::has accepts a king promotion", "pm", lambda e: len(e["to"]) > 0, pm_has, "C17"),
+        ("one move yielded twice, another not at all", "pm", lambda e: e["k"] == "ok" and len(e["seq"]) > 1, pm_dup, "C17"),
         ("try_offset lost one successful offset", "offs", lambda e: len(e["some"]) > 0, offs, "C19"),
         ("parsed value altered", "txt", lambda e: e["k"] == "ok" and e["ty"] == "square", txt, "C19"),
         ("knight table lost a square", "leap", lambda e: True, leap, "C05"),
